@@ -14,7 +14,7 @@ use vcommon::{
 
 use crate::c12::{build_corpus, restore_stub, target_dir, write_corpus, Rng};
 
-pub const RULE: &str = "corpus = N generated modules (quick 60, thorough 500), each with 2 custom \
+pub const RULE: &str = "corpus = N generated modules (quick 150, thorough 500), each with 2 custom \
 types (struct / unit enum deriving CustomType), 1-2 structs deriving Type (0..6 fields) and one \
 error enum deriving introspect::ReplyError (unit, struct and single-tuple variants); field types \
 are drawn from the whole mapping table: bool, every integer width, f32/f64, String / &str / char, \
@@ -367,7 +367,7 @@ fn gen_module(idx: usize, rng: &mut Rng) -> Module {
 }
 
 pub fn run(ctx: &Ctx) -> i32 {
-    let n = ctx.tier.pick(60usize, 500);
+    let n = ctx.tier.pick(150usize, 500);
     let mut rng = Rng::new(ctx.subseed("corpus16", 0));
     let modules: Vec<Module> = (0..n).map(|i| gen_module(i, &mut rng)).collect();
     let sources: BTreeMap<usize, String> = modules.iter().map(|m| (m.idx, m.src.clone())).collect();
